@@ -17,6 +17,7 @@ from typing import (
     Type,
     Sequence,
     Iterator,
+    Tuple,
 )
 from abc import abstractmethod, ABCMeta
 from contextlib import contextmanager
@@ -47,9 +48,40 @@ __all__ = [
     "disable_message_validation",
 ]
 
-_VALIDATION_ENABLED: ContextVar[bool] = ContextVar("_VALIDATION_ENABLED", default=True)
-# number of disable blocks currently entered (blocks entered by generators need not be left in LIFO order)
-_DISABLE_DEPTH: ContextVar[int] = ContextVar("_DISABLE_DEPTH", default=0)
+
+class _DisableBlock:
+    """One entered disable_message_validation block, active until it is left"""
+
+    __slots__ = ("active",)
+
+    def __init__(self) -> None:
+        self.active = True
+
+
+# The disable blocks entered in the current context. A context derived inside a block
+# (contextvars.copy_context(), an asyncio task created there) inherits the block
+# object, not a frozen "off" flag: once the block has been left validation is in
+# force again in the derived context too. Blocks entered by generators need not be
+# left in LIFO order, so a block is removed by identity.
+_DISABLE_BLOCKS: ContextVar[Tuple[_DisableBlock, ...]] = ContextVar(
+    "_DISABLE_BLOCKS", default=()
+)
+
+
+class _ValidationSwitch:
+    """Consulted by every descriptor __set__/__setitem__"""
+
+    __slots__ = ()
+
+    def get(self) -> bool:
+        """True unless a disable block of this context is still being executed"""
+        for block in _DISABLE_BLOCKS.get():
+            if block.active:
+                return False
+        return True
+
+
+_VALIDATION_ENABLED = _ValidationSwitch()
 
 
 @contextmanager
@@ -67,15 +99,17 @@ def disable_message_validation(ignore=False):
     ```
     """
     if not ignore:
-        _DISABLE_DEPTH.set(_DISABLE_DEPTH.get() + 1)
-        _VALIDATION_ENABLED.set(False)
+        block = _DisableBlock()
+        _DISABLE_BLOCKS.set(
+            tuple(b for b in _DISABLE_BLOCKS.get() if b.active) + (block,)
+        )
         try:
             yield
         finally:
-            depth = _DISABLE_DEPTH.get() - 1
-            _DISABLE_DEPTH.set(depth)
-            if depth <= 0:
-                _VALIDATION_ENABLED.set(True)
+            block.active = False
+            _DISABLE_BLOCKS.set(
+                tuple(b for b in _DISABLE_BLOCKS.get() if b is not block)
+            )
     else:
         yield  # dummy context
 
